@@ -954,6 +954,45 @@ def r11(k: Kit) -> None:
               'export and re-import', po.loc(po.node))
 
 
+def r12(k: Kit) -> None:
+    """A passphrase given as a callable is resolved before it is used."""
+    rep = k.rep
+    idx = k.idx
+    rep.rule('C15.R12', 'wherever public_key.py resolves a passphrase '
+             '(_resolve_passphrase: the argument may be a callable taking '
+             'the file name, possibly returning an awaitable), the import '
+             'calls that follow on the same path receive the resolved value, '
+             'not the original argument: otherwise an encrypted key cannot '
+             'be loaded with the documented callable form')
+    n = 0
+    for fi in idx.iter_funcs(['public_key']):
+        g = k.cfg(fi)
+        rd = k.rd(fi)
+        res = [(nd, nm) for nd in g.nodes for nm, v in rd.defs[nd.id]
+               if v is not None and is_call(v, '_resolve_passphrase')]
+        for nd, nm in res:
+            imports = [(m, c) for m, c in k.call_nodes(
+                fi, lambda c: (dotted(c.func) or '').startswith('import_private_key'))
+                if g.path(nd.id, m.id, follow_exc=False, blocked_nodes=[
+                    x.id for x in g.nodes if x.kind in ('loop', 'loophead')])
+                is not None]
+            for m, c in imports:
+                n += 1
+                arg = c.args[1] if len(c.args) > 1 else next(
+                    (kw.value for kw in c.keywords
+                     if kw.arg == 'passphrase'), None)
+                rep.check(arg is not None and dotted(arg) == nm, 'C15.R12',
+                          key(fi, f'import uses {nm}'),
+                          'the resolved passphrase is what the import gets',
+                          f'`{norm(c)[:60]}` is given '
+                          f'`{norm(arg) if arg is not None else "nothing"}` '
+                          f'although `{nm}` was resolved just before: with '
+                          'passphrase=lambda filename: ... the import raises '
+                          'TypeError (cannot convert function to a buffer)',
+                          k.loc(fi, m))
+    rep.floor('C15.R12', 'imports after a passphrase resolution', n, 2)
+
+
 def run(idx, rep, tier):
     k = Kit(idx, rep)
     rep.assumptions += NOT_DECIDED
@@ -967,3 +1006,4 @@ def run(idx, rep, tier):
     r8(k)
     r9(k)
     r11(k)
+    r12(k)
